@@ -518,3 +518,30 @@ func ZZ_C03_AfterLoad() {
 	vfAssert("after-load:value", vfImplies(hit, v == 7))
 	vfAssert("after-load:live-entry-restored", vfImplies(U+d < E, hit || W >= E))
 }
+
+// ZZ_C10_HybridGetAfterClose: once Close has returned, a hybrid Get misses also for a key whose copy lives in the
+// secondary tier (demoted before the Close), and a hybrid loading Get reports ErrCacheClosed.
+func ZZ_C10_HybridGetAfterClose() {
+	h := zzHybNew(1, false)
+	s := h.s
+	s.Set(1, 101, 1, 0)
+	h.settle()
+	s.Set(2, 201, 1, 0) // one of the two is demoted
+	h.settle()
+	_, in1 := h.sec.m[1]
+	_, in2 := h.sec.m[2]
+	vfAssert("one-key-demoted", in1 || in2)
+	ls := NewLoadingStore(s)
+	ls.Loader(func(ctx context.Context, key uint64) (Loaded[uint64], error) {
+		return Loaded[uint64]{Value: 900 + key, Cost: 1}, nil
+	})
+	s.Close()
+	vfReach("closed")
+	for k := uint64(1); k <= 2; k++ {
+		_, hit, _ := s.GetWithSecodary(k)
+		vfAssert("get-after-close-misses-in-both-tiers", !hit)
+		_, err := ls.Get(context.Background(), k)
+		vfAssert("loading-get-after-close-reports-closed", err == ErrCacheClosed)
+	}
+	vfAssert("nothing-resident-after-close", s.Len() == 0)
+}
